@@ -129,7 +129,7 @@ ValidScript(sq) ==
 Scripts == {sq \in UNION {[1..n -> Alphabet] : n \in 0..MaxLen} : ValidScript(sq)}
 
 Ref0 == [k \in KeyNames |->
-           IF k = "kh" THEN [st |-> "live", vid |-> "v0", flag |-> 7, ver |-> 1, len |-> 5, isnum |-> FALSE, num |-> 0]
+           IF k = "kh" THEN [st |-> "live", vid |-> "v0", flag |-> 7, ver |-> 1, len |-> 5, isnum |-> FALSE, num |-> 0, disk |-> FALSE]
            ELSE IF k = "kt" THEN [NoRef EXCEPT !.st = "tomb", !.ver = -2]
            ELSE NoRef]
 State0(g) == [ref |-> Ref0, backlog |-> g, junk |-> FALSE, fresh |-> TRUE,
